@@ -17,7 +17,8 @@ CHECKS = {
             "Decides, for ALL construct/enter/exit/exception-exit histories over all 36 settings classes at once, the "
             "structural conditions that make a context restore exactly the value in force before entry: capture in "
             "__enter__ before the write (S1), per-entry stack (S2), unconditional write-back (S3), exit cannot be "
-            "skipped or swallow exceptions (S4), slot isolation per class and per dtype (S5), composite pairing (S6), no "
+            "skipped or swallow exceptions (S4), slot isolation per class and per dtype and writes going through the class's own _set_state hook (S5), "
+            "composite pairing incl. conditional sub-contexts entered and exited under the same condition (S6), no "
             "import-time reads by consumers (S7). These conditions are sufficient for the property under the stated "
             "assumptions (single thread, contexts used through `with`) and each is necessary: breaking one yields a "
             "concrete leaking history. The unit test samples one history; this quantifies over all of them.",
@@ -32,8 +33,9 @@ CHECKS = {
             "upper, dim, batch_repeat, masks, interpolation indices survive); (F) every floating tensor factory and "
             "every constructor call of a dtype-taking class carries a dtype derived from an operand, never torch's "
             "default; (V) dtype conversions of recorded arguments sit behind a floating-point test so index / mask "
-            "tensors are never cast; (N) optional device/dtype are None-tested; (P,P2,G) dtype/device property "
-            "overrides, to()/type() overrides of dtype-keyword classes, requires_grad only on floating tensors; (C) the "
+            "tensors are never cast; (N) optional device/dtype are None-tested; (P,P2,G,G2) dtype/device property "
+            "overrides, to()/type() overrides of dtype-keyword classes store the TARGET dtype, requires_grad only on "
+            "floating tensors and over both the positional and the keyword record; (C) the "
             "ownership engine proves that the operator returned by clone() holds no tensor object and no storage of "
             "the original; (R) explicit rebuilds inside to/type/cpu/cuda/double/float/half/clone/detach bind to the "
             "constructor and forward every value-bearing flag; (M) no statement outside LinearOperator.__init__ "
@@ -46,9 +48,10 @@ CHECKS = {
             "reflected handlers in the free non-commutative algebra",
             "The registered-function tables are finite but never enumerated by the tests. This check rebuilds them from "
             "the decorators, proves that every function the property lists is registered (both operand orders for the "
-            "four binary operations), resolves every registered method NAME through the MRO on all 36 operator classes "
+            "four binary operations and division), resolves every registered method NAME through the MRO on all 36 operator classes "
             "and requires a call-compatible signature (1200+ obligations, exhaustive), checks the routing structure of "
-            "__torch_function__ (guarded NotImplementedError, lookup by name on the receiving class, operand swap), and "
+            "__torch_function__ by partial evaluation (guarded NotImplementedError, lookup by name on the receiving class, "
+            "operand swap that forwards every remaining positional and keyword argument), and "
             "PROVES by term rewriting that every reflected one-liner and every operator-second handler computes "
             "f(other, self, alpha) with the right order, sign, transposes and alpha placement for all operand values; "
             "(T6) with A.solve(X) = A^-1 X as a primitive, every evaluable solve_triangular definition returns A^-1 R "
@@ -66,7 +69,8 @@ CHECKS = {
             "or is excused by the property itself (explicit out= buffers, the named in-place API) - for EVERY input "
             "layout (contiguous, expanded, transposed, storage-sharing views: contiguous/reshape/to/expand are never "
             "assumed to copy), every early-exit path and every class reachable through dynamic dispatch. Also: no "
-            "method re-assigns an attribute that __init__ derives from constructor parameters. The tests never look at "
+            "method re-assigns an attribute that __init__ derives from constructor parameters, nor mutates a list / dict "
+            "held in one (directly or through an alias). The tests never look at "
             "their inputs after a call and always pass fresh contiguous tensors, so none of this is reachable by them.",
             TRUST + "; assumptions A1 (torch API table), A2 (caller closures do not leak retained storage), A3 (no "
             "further reflection), A4 (Function.apply returns new objects), A5 (annotation / usage based typing), A6.",
@@ -78,7 +82,8 @@ CHECKS = {
             "solve_triangular, sqrt_inv_matmul, inv_quad, inv_quad_logdet; ~40 definitions x operands) the operand may "
             "reach an elementwise arithmetic use or the return value only when dominated by a shape guard on that "
             "operand (_matmul_broadcast_shape, an explicit shape comparison that raises, or delegation to a checked "
-            "contraction with self). This is a necessary condition of 'incompatible shapes raise instead of "
+            "contraction with self); (K) a product kernel of utils/ that "
+            "expands or repeats its operand validates it first. This is a necessary condition of 'incompatible shapes raise instead of "
             "broadcasting' and is decided for all operand shapes at once. NOT decided: out-of-range indices, "
             "non-square operators, shape arithmetic of +/* where broadcasting is the specification, results built "
             "from the operand's shape only.",
@@ -132,7 +137,10 @@ CHECKS = {
             "'not yet set' test with the right polarity), a keyed memo (read back only under equality of the key stored "
             "with it), a private helper guarded at all its call sites, or aimed at an operator constructed in the same "
             "function; ignore_args caches only where arguments cannot matter; denotation attributes are never "
-            "re-assigned; every cache-hit shortcut (try pop/get_from_cache ... except CachingError) whose cache name has "
+            "re-assigned; a 'not yet cached' guard probes the cache with the same key shape as the "
+            "write it protects (W, vacuous-guard clause); no method writes in place into a tensor held by self or "
+            "obtained from a cached query (M; the C13 ownership proof restricted to operator state); containers "
+            "reachable from a denotation attribute are not mutated outside __init__ (D); every cache-hit shortcut (try pop/get_from_cache ... except CachingError) whose cache name has "
             "a writer returns the same components as its miss path (H; today both such shortcuts are dormant). Tests "
             "build a fresh operator per query, so no history is ever exercised. NOT decided: that a "
             "cached or transplanted factorization is numerically valid for the (new) matrix.",
@@ -148,7 +156,11 @@ CHECKS = {
             "index / scale / transpose / jitter return an operator that denotes a different matrix; and public arithmetic "
             "methods dereference a python-scalar operand only behind a type test or conversion (S), convert it with "
             "the operator's dtype (S2), and the private hook _mul_constant is reached only through mul(), which "
-            "establishes its precondition, or from its own definitions (H: who-may-call). Decided for every "
+            "establishes its precondition, or from its own definitions (H: who-may-call); (O) a product that a "
+            "left-multiplication method (matmul/_matmul/__matmul__/_t_matmul) builds from self and the operand keeps "
+            "self on the left, and the reflected family keeps it on the right - for non-commuting matrices the swap "
+            "is a different operator; (D) no method mutates a list/dict held in a denotation attribute of an "
+            "existing operator. Decided for every "
             "class x rewrite cell at once. NOT decided: dense values, broadcasting arithmetic of constants, argument "
             "types at rebuild sites, flags hidden behind an unrelated **dict.",
             TRUST + "; reviewed tables of non-value flags and exceptions in lo_static/props/c02.py.", "DESIGN.md section 3, C02"),
@@ -163,14 +175,17 @@ CHECKS = {
             "densifies to for one value of the flag; (D) the floating buffers of the product / densification kernels "
             "(utils/toeplitz, sparse, interpolation ..., _matmul / to_dense families) carry an operand's dtype, so a "
             "float64 product is not rounded through float32; (Q) an argument-less squeeze() whose result is used as a "
-            "subscript index sits behind an explicit element-count test (else the size-1 case loses a dimension). "
+            "subscript index sits behind an explicit element-count test (else the size-1 case loses a dimension); (W) a product / densification "
+            "kernel never writes in place into storage of the operator or of the operand (the second product would "
+            "differ from the first); (O) operand order at the product sites of the matmul / rmatmul families. "
             "Decided for all values, shapes and nestings at once. NOT "
             "decided: numerical agreement of matmul / transpose / to_dense (FFT, Kronecker reshapes, interpolation).",
             TRUST, "DESIGN.md section 3, C01"),
     "C07": (True,
             "table agreement over the positional protocol of the autograd Functions (forward signature x backward "
             "tuples x needs_input_grad indices x saved-tensor layouts x apply sites), with CFG reachability for "
-            "branch correlation",
+            "branch correlation; reaching-definitions dataflow with an abstract polynomial-degree domain for linearity "
+            "in the upstream gradient",
             "Partial, structural: for all 9 torch.autograd.Function classes the fixed prefix of every backward tuple "
             "equals the number of fixed forward inputs on that layout (P1), every needs_input_grad index gates the "
             "gradient returned at exactly that position and the [j:] slice starts where the representation starts "
@@ -182,7 +197,12 @@ CHECKS = {
             "the order in which the constructor record flattens the representation (P5); the autograd default "
             "re-expands the gradients of the filtered differentiable arguments to one entry per representation "
             "element in order (P7); in product-structured operators (ConstantMul, Interpolated) each hand-written "
-            "gradient depends, by flow-sensitive value dependence, on every other factor (P8). PyTorch checks tuple length only on executed paths and the tests set "
+            "gradient depends, by flow-sensitive value dependence, on every other factor (P8); (L) every backward is LINEAR in each upstream gradient - each returned entry "
+            "value-depends on one, each upstream gradient reaches a returned entry, and a degree analysis (abstract "
+            "degree 0/1/2/unknown per value, bilinear ops add degrees, concatenations paired segment-wise) finds no "
+            "product whose two operands both depend on the same upstream gradient: g*g == g and 1*x == x for the "
+            "all-ones gradient of .sum().backward(), so the tests cannot see it; (P9) the contributions of two upstream "
+            "gradients are accumulated independently, never one only on the branch where the other is None. PyTorch checks tuple length only on executed paths and the tests set "
             "requires_grad on everything, so misaligned indices / shifted prefixes on requires_grad subsets are "
             "invisible to them. NOT decided: gradient VALUES, swaps among same-kind tensor slots.",
             TRUST, "DESIGN.md section 3, C07"),
